@@ -3,6 +3,7 @@
 package verifharness
 
 import (
+	"math"
 	"context"
 	"errors"
 	"fmt"
@@ -206,7 +207,7 @@ func genLimCfg(r *Rng) LimCfg {
 		c.Period = Pick(r, limWidths)
 	}
 	w := c.Width()
-	c.MaxWait = Pick(r, []int64{-1, 0, 0, w - 1, w, w + 1, 3 * w, 1 << 50})
+	c.MaxWait = Pick(r, []int64{-1, 0, 0, w - 1, w, w + 1, 3 * w, 1 << 50, math.MaxInt64})
 	if c.MaxWait < -1 {
 		c.MaxWait = 0
 	}
@@ -262,7 +263,7 @@ func genLimHistory(r *Rng, c LimCfg, n int) []LimOp {
 		}
 		switch op.Kind {
 		case "TryReserve", "AcquireMax":
-			op.MaxW = Pick(r, []int64{-1, 0, 1, w - 1, w, w + 1, 2*w - 1, 2 * w, 3 * w, int64(1+r.Intn(4))*w - t%w, r.I64n(4*w + 1), 1 << 50})
+			op.MaxW = Pick(r, []int64{-1, 0, 1, w - 1, w, w + 1, 2*w - 1, 2 * w, 3 * w, int64(1+r.Intn(4))*w - t%w, r.I64n(4*w + 1), 1 << 50, math.MaxInt64, math.MaxInt64 - 1})
 			if op.MaxW < -1 {
 				op.MaxW = 0
 			}
